@@ -785,6 +785,144 @@ def run(props, mir_text):
                      events=sorted(set(m.event.values()) | {e for v in m.stmt_events.values() for e in v}))
             obs.append(r)
         out[p] = obs
+    vals = run_values(props, funcs)
+    for p in props:
+        out[p] = out.get(p, []) + vals.get(p, [])
+    return out
+
+
+# ------------------------------------------------------------------------------------------ values
+# Value obligations: the operand handed to a component call (or stored in an aggregate) is
+# evaluated symbolically over the function's MIR -- locals are expanded by their single
+# definitions into a term over the parameters, `self`'s fields and call results -- and compared
+# with the expected term.  The comparison is a validity query to Z3 (64-bit bit-vectors for the
+# arithmetic, every other sub-term an uninterpreted constant named by its normal form), so
+# `end - start` written as `SubWithOverflow(_3, _2).0` or in any equivalent arithmetic form is
+# accepted, and `end`, `end - start + 1`, another field or another local are rejected.
+def norm_term(t):
+    t = re.sub(r"\b(copy|move|no_retag) ", "", t)
+    t = re.sub(r"\s+", "", t)
+    # strip type ascriptions of field projections: (X.1:u64) -> (X.1)
+    t = re.sub(r"\.(\d+):[^()]*?\)", r".\1)", t)
+    prev = None
+    while prev != t:
+        prev = t
+        t = re.sub(r"\(\(([^()]*)\)\)", r"(\1)", t)
+        if t.startswith("(") and t.endswith(")") and _balanced(t[1:-1]):
+            t = t[1:-1]
+    return t
+
+
+def _balanced(s):
+    d = 0
+    for ch in s:
+        if ch == "(":
+            d += 1
+        elif ch == ")":
+            d -= 1
+            if d < 0:
+                return False
+    return d == 0
+
+
+def term_to_z3(t, z3, cache):
+    t = norm_term(t)
+    m = re.match(r"^\((Sub|Add|Mul)WithOverflow\((.*)\)\)\.0$", t) or re.match(r"^(Sub|Add|Mul)WithOverflow\((.*)\)\.0$", t) or re.match(r"^(Sub|Add|Mul)\((.*)\)$", t)
+    if m and _balanced(m.group(2)):
+        args = split_args(m.group(2))
+        if len(args) == 2:
+            a, b = term_to_z3(args[0], z3, cache), term_to_z3(args[1], z3, cache)
+            return {"Sub": a - b, "Add": a + b, "Mul": a * b}[m.group(1)]
+    m = re.match(r"^const(\d+)_(u64|usize|u32|u8)$", t)
+    if m:
+        return z3.BitVecVal(int(m.group(1)), 64)
+    # leaves: uninterpreted constants named by the term with reference/deref/grouping noise removed
+    key = re.sub(r"[()&*]", "", t)
+    if key not in cache:
+        cache[key] = z3.BitVec("t%d" % len(cache), 64)
+    return cache[key]
+
+
+def value_specs():
+    """property -> [(function, description, selector, expected term text)].
+    selector: ("arg", callee event name, index) | ("field", aggregate name, field)"""
+    CS = "MerkleTree::changeset(&((*_1).3))"  # the changeset built from self.tree
+    BLK = "(*(*(&(((*(&Option::<DataBlock>::as_ref(&((*_2).1)))))asSome).0)))"
+    V = {}
+    V["C01"] = [
+        ("core::append_batch", "block data is written at the tree's current byte length", ("arg", "BlockStore::append_batch", 3), "(((*_1).3).2)"),
+        ("core::append_batch", "AppendOutcome.length is the tree length", ("field", "AppendOutcome", "length"), "(((*_1).3).1)"),
+        ("core::append_batch", "AppendOutcome.byte_length is the tree byte length", ("field", "AppendOutcome", "byte_length"), "(((*_1).3).2)"),
+        ("core::clear", "the oplog drop entry starts at `start`", ("arg", "Oplog::clear", 1), "_2"),
+        ("core::clear", "the oplog drop entry ends at `end`", ("arg", "Oplog::clear", 2), "_3"),
+        ("core::get", "the byte range looked up is the requested index", ("arg", "Hypercore::byte_range", 1), "_2"),
+    ]
+    V["C08"] = [
+        ("core::append_batch", "the bitfield update of an append starts at the changeset's ancestors (old length)", ("field", "BitfieldUpdate", "start"), "(%s.1)" % CS),
+        ("core::append_batch", "... and covers the batch length", ("field", "BitfieldUpdate", "length"), "(%s.3)" % CS),
+        ("core::append_batch", "... and is not a drop", ("field", "BitfieldUpdate", "drop"), "constfalse"),
+        ("core::clear", "clear drops bits from `start`", ("arg", "Bitfield::set_range", 1), "_2"),
+        ("core::clear", "clear drops `end - start` bits", ("arg", "Bitfield::set_range", 2), "Sub(_3, _2)"),
+        ("core::clear", "clear clears (value false)", ("arg", "Bitfield::set_range", 3), "constfalse"),
+        ("core::get", "has-gate of get tests the requested index", ("arg", "Bitfield::get", 1), "_2"),
+        ("core::verify_and_apply_proof", "a received block sets exactly bit block.index", ("field", "BitfieldUpdate", "start"), "(%s.0)" % BLK),
+        ("core::verify_and_apply_proof", "... one bit", ("field", "BitfieldUpdate", "length"), "const1_u64"),
+    ]
+    V["C13"] = [
+        ("core::get", "the Get event carries the requested index", ("arg", "send_on_get", 1), "_2"),
+    ]
+    return V
+
+
+def run_values(props, funcs):
+    import z3
+    out = {}
+    VS = value_specs()
+    for p in props:
+        obs = []
+        for i, (fn, desc, sel, expected) in enumerate(VS.get(p, [])):
+            name = "mirval_%s_%s_%d" % (p.lower(), fn.split("::")[-1], i)
+            t0 = time.time()
+            if fn not in funcs:
+                obs.append(dict(name=name, function=fn, obligation=desc, result="missing", reasons=["function not found"]))
+                continue
+            m = Model(funcs[fn], funcs)
+            found = []
+            for bid in sorted(m.f.blocks):
+                b = m.f.blocks[bid]
+                if b.cleanup:
+                    continue
+                if sel[0] == "arg" and b.ti["kind"] == "call" and m.event.get(bid, "").split("(")[0] == sel[1]:
+                    args = split_args(b.ti["args"])
+                    if sel[2] < len(args):
+                        found.append((bid, m.resolve(args[sel[2]])))
+                if sel[0] == "field":
+                    for s_ in b.stmts:
+                        mm = re.match(r"^\S+ = (?:\w+::)*%s \{(.*)\};$" % re.escape(sel[1]), s_)
+                        if mm:
+                            for part in split_args(mm.group(1)):
+                                k, _, v = part.strip().partition(": ")
+                                if k == sel[2]:
+                                    found.append((bid, m.resolve(v)))
+            res = dict(name=name, function=fn, obligation=desc, queries=0, reasons=[], witness_reachable=bool(found), rules=0, locations=0)
+            if not found:
+                res.update(result="violated", reasons=["no %s %s found in %s (the value this obligation is about is no longer produced)" % (sel[0], sel[1:], fn)])
+            else:
+                ok = True
+                for bid, txt in found:
+                    cache = {}
+                    a, e = term_to_z3(txt, z3, cache), term_to_z3(expected, z3, cache)
+                    s = z3.Solver()
+                    s.add(a != e)
+                    res["queries"] += 1
+                    r = s.check()
+                    if r != z3.unsat:
+                        ok = False
+                        res["reasons"].append("bb%d: value is `%s`, expected `%s`%s" % (bid, norm_term(txt)[:160], norm_term(expected), "" if r == z3.sat else " (solver: %s)" % r))
+                res["result"] = "holds" if ok else "violated"
+            res["seconds"] = round(time.time() - t0, 3)
+            obs.append(res)
+        out[p] = obs
     return out
 
 
